@@ -293,7 +293,7 @@ H("C02", "html/layout", "VxH_C02_table_row", mode="real", reach=["laid-out"], bo
 # ---- C11 lines (alignment arithmetic only) ----
 ASSUMPTIONS["C11"] = [
     "the placement arithmetic of text-align for a line of symbolic width in a symbolic available width; and whole-pipeline line breaking of one paragraph in a container of symbolic width, where the text shaping engines (pango / go-text on font files, which this technique cannot encode) are replaced by text.VxAhem: every rune an em square of the font size, ascent 0.8 em, breaks after spaces and at preserved line feeds only, no bidi, hyphenation or shaping. What the real engines do with real fonts is outside the claim",
-    "text-indent, line-height other than the font size, inline-blocks and justification are not covered",
+    "line-height other than the font size, inline-blocks and justification are not covered",
 ]
 CLAIMS["C11"] = {
     "text": "For fully symbolic line and available widths and every combination of text-align, text-align-last, direction and last-line flag the solver shows the offset computed by textAlign is the start / end / centre placement CSS Text defines and keeps the content inside the available width. For a paragraph of 3..5 words (plain, pre-line with a line feed, with a padded inline box, nowrap, rtl) and every container width in [10, 200] px the lines hold every word once and in order, fit unless a single word, break only when the next word does not fit (plain text), have no leading / trailing space, are aligned as text-align says and stack without gap.",
@@ -326,7 +326,7 @@ for _p in ("C15", "C01", "C18"):
     H(_p, "svg", "VxH_C15_svg_templates", reach=["resolved"], bounds="three gradient definitions, href of each one of {none, #g0, #g1, #g2} (all 64 reference graphs, cycles included), visiting order of the definitions map a solver-chosen permutation in two independent runs", quick={"maxsteps": 80000000, "shards": 6})
 H("C14", "svg", "VxH_C14_svg_dashes", mode="real", nonfinite_confirm=True, reach=["resolved", "pattern"], bounds="stroke-dasharray of 1..2 (thorough 3) px lengths and a px dash offset, all unbounded symbolic reals; paths with a float division by zero are decided by running their solver model natively")
 H("C15", "text/hyphen", "VxH_C15_hyphen_shared", reach=["hyphenated", "has-break"], bounds="a word of 3..4 (thorough 5) symbolic ASCII letters, lower or upper case, against a hand-built dictionary with two non-standard (Hungarian style) and two plain patterns; two Hyphener values sharing the dictionary data", quick={"shards": 4})
-H("C11", "html/layout", "VxH_C11_lines", mode="real", reach=["laid-out", "wrapped", "preserved-line-feed"], bounds="one paragraph of 3..5 words (plain, with a preserved line feed under pre-line, with a padded span under normal and pre-line, nowrap; thorough: rtl) x text-align left/right/center x container width a symbolic real in [10, 200] px; font model: every rune a 10px em square, breaks after spaces only (text.VxAhem stands in for the Pango / go-text engines)", quick={"maxsteps": 200000000, "shards": 6})
+H("C11", "html/layout", "VxH_C11_lines", mode="real", reach=["laid-out", "wrapped", "preserved-line-feed"], bounds="one paragraph of 3..5 words (plain with text-indent 0 / 20px, with a preserved line feed under pre-line, with a padded span under normal and pre-line, nowrap; thorough: rtl) x text-align left/right/center x container width a symbolic real in [10, 200] px; font model: every rune a 10px em square, breaks after spaces only (text.VxAhem stands in for the Pango / go-text engines)", quick={"maxsteps": 200000000, "shards": 6})
 for _p in ("C12", "C02"):
     H(_p, "html/layout", "VxH_C12_paragraph", mode="real", reach=["laid-out", "paragraph-split", "conforming-break-exists"], bounds="one paragraph of 3..5 (thorough 6) one-word lines of 10px, orphans and widows in 1..3, page height a symbolic real in [15, 75] px; font model text.VxAhem", quick={"maxsteps": 200000000, "shards": 6})
 H("C14", "html/document", "VxH_C14_write", mode="real", reach=["rendered", "written", "dangling-link"], bounds="three 10px sections on 100px pages, each with id A / B / none, the second and third optionally starting a new page, two <a> elements with href in {#A, #B, #missing, external} (quick: the third section A / none, the second link #A / #missing); zoom a symbolic real in [0.25, 4]; Render + Write on a recording backend.Document", quick={"maxsteps": 300000000, "time": "800s", "shards": 8})
@@ -339,3 +339,4 @@ H("C06", "css/parser", "VxH_C06_escape6", reach=["tokenized", "replaced", "kept"
 H("C03", "css/selector", "VxH_C05_spec", reach=["done"], bounds="selector specificity composition (:is / :not / :has take their most specific argument), see C05")
 H("C15", "html/document", "VxH_C16_paint", reach=["laid-out", "drawn"], bounds="html > body > (section, article > nav, aside), unique background / border / outline colours; section {static,relative} x {z auto,-1,1} x {opaque,translucent}; article {static,relative} x {z auto,1} x {float none,left}; aside {static,relative} x {z auto,-1,0,1} (thorough: x translucent)", quick={"maxsteps": 200000000, "time": "800s", "shards": 8}, thorough={"maxsteps": 200000000, "shards": 14})
 H("C04", "html/tree", "VxH_C04_initial_computed", reach=["computed", "recomputed"], bounds="the 18 properties whose initial value needs computing x {root, child}, with solid border / outline / column-rule styles and float: left in force")
+H("C07", "css/validation", "VxH_C07_gradients", reach=["validated", "accepted"], bounds="4 gradient functions x 2 (thorough 4) properties x first argument of 0..4 values over 6 kinds (thorough 13: direction / shape keywords, 45deg, 1px, 10%, 0), then two colour stops", quick={"shards": 6}, thorough={"shards": 14, "maxpaths": 4000000})
